@@ -226,6 +226,7 @@ def discharge(ob, thorough=False):
     else:
         ob.status = "undecided"
         ob.detail = "z3: %s" % s.reason_unknown()
+        _retry_unknown(ob)
     z3_status = ob.status
     if ob.status == "undecided" or thorough:
         st, detail = cvc5_check(s)
@@ -244,6 +245,34 @@ def discharge(ob, thorough=False):
                 ob.detail = "z3=%s cvc5=%s" % (z3_status, st)
     ob.seconds = time.time() - t0
     return ob
+
+
+def _retry_unknown(ob):
+    """z3 said unknown.  Retry (a) with other random seeds - an answer there is an answer to the same query - and
+    (b) looking for a counter-model among small sequences (every $len <= 1, <= 2): `sat` under an extra
+    restriction is still a model of the unrestricted query, so it counts as a refutation; `unsat` under a
+    restriction proves nothing and is ignored."""
+    lens = z3.Const("H_$len", IntArr)
+    x = z3.Int("bx")
+    attempts = [("seed=11", None, 11), ("len<=1", z3.ForAll([x], z3.Select(lens, x) <= 1), 0), ("len<=2", z3.ForAll([x], z3.Select(lens, x) <= 2), 0), ("seed=23", None, 23)]
+    for label, extra, seed in attempts:
+        s = z3.Solver()
+        s.set("timeout", max(3000, Z3_TIMEOUT_MS // 2))
+        s.set("random_seed", seed)
+        for f in ob.pc:
+            s.add(f)
+        s.add(z3.Not(ob.goal))
+        if extra is not None:
+            s.add(extra)
+        r = s.check()
+        if r == z3.sat:
+            ob.status, ob.model = "refuted", s.model()
+            ob.detail += " | retry %s: sat" % label
+            return
+        if r == z3.unsat and extra is None:
+            ob.status = "discharged"
+            ob.detail += " | retry %s: unsat" % label
+            return
 
 
 def cvc5_check(solver):
